@@ -64,6 +64,87 @@ def targets(urls):
           ("30>GEMINI", (30, "GEMINI://h/0", "")), ("51", (51, "Not found", "")), ("39>", (39, urls[-1], ""))]
     return t
 
+def redirect_pin_cases(res):
+    """'verifies the certificate pin on every hop': the real GeminiClient with its trust store on, only create_connection
+    replaced; the hops of a redirect chain are different ports of one host (or another host) presenting chosen certificates"""
+    import asyncio, certs as certmod, clientdrv as cd
+    from pathlib import Path
+    from nauyaca.client.session import GeminiClient
+    from nauyaca.security.tofu import TOFUDatabase, CertificateChangedError
+    cs = certmod.certs()
+    tmp = scratch_dir("nv-c16p-")
+    def rows(path):
+        import sqlite3
+        con = sqlite3.connect(str(path))
+        try: return sorted((h, p, fp) for h, p, fp in con.execute("SELECT hostname, port, fingerprint FROM known_hosts"))
+        finally: con.close()
+    async def fetch(path, peers, start):
+        """peers: {(host, port): (certificate index, reply bytes)} -> (outcome, bytes received per peer)"""
+        loop = asyncio.get_running_loop()
+        received = {}
+        async def fake_cc(factory, host=None, port=None, ssl=None, server_hostname=None, **kw):
+            ci, reply = peers[(host, port)]
+            proto = factory()
+            log = received.setdefault((host, port), [])
+            class T(cd.RecTransport):
+                def write(self_, b): log.append(bytes(b)); cd.RecTransport.write(self_, b)
+                def get_extra_info(self_, name, default=None):
+                    if name == "ssl_object":
+                        class S:
+                            def getpeercert(self, binary_form=False): return cs[ci]["der"]
+                        return S()
+                    return default
+            tr = T([])
+            proto.connection_made(tr)
+            def feed():
+                if not tr.closed:
+                    proto.data_received(reply)
+                proto.connection_lost(None)
+            loop.call_soon(feed)
+            return tr, proto
+        client = GeminiClient(timeout=1.0, trust_on_first_use=True, tofu_db_path=path, max_redirects=3)
+        loop.create_connection = fake_cc
+        try:
+            r = await client.get(start)
+            out = ["ok", r.status]
+        except CertificateChangedError:
+            out = ["changed"]
+        except Exception as e:
+            out = ["error", type(e).__name__]
+        finally:
+            del loop.create_connection
+        return out, {k: b"".join(v) for k, v in received.items()}
+    try:
+        scen = []
+        for second in (("a.example", 1966), ("b.example", 1965)):
+            hop2 = "gemini://%s%s/final" % (second[0], "" if second[1] == 1965 else ":%d" % second[1])
+            peers = {("a.example", 1965): (0, ("30 %s\r\n" % hop2).encode()), second: (0, b"20 text/plain\r\nfinal")}
+            # (1) the second hop is pinned to ANOTHER certificate than the one it presents (which the first hop already showed)
+            p1 = Path(tmp) / ("s1-%s-%d.db" % second); TOFUDatabase(p1).trust(second[0], second[1], cs[1]["cert"])
+            scen.append(("second hop pinned to a different certificate", second, p1, peers, "changed"))
+            # (2) nothing pinned: both hops must be pinned afterwards
+            p2 = Path(tmp) / ("s2-%s-%d.db" % second); TOFUDatabase(p2)
+            scen.append(("nothing pinned", second, p2, peers, "ok"))
+        for label, second, path, peers, want in scen:
+            out, received = asyncio.run(fetch(path, peers, "gemini://a.example/start"))
+            res.evaluations += 1; res.count("redirect-pin"); res.nontriv(("redirect-pin", label, second))
+            bad = []
+            if want == "changed":
+                if out != ["changed"]: bad.append("the fetch did not fail with the certificate-changed error: %s" % out)
+                if received.get(second): bad.append("the mis-pinned hop received %r" % received[second][:60])
+            else:
+                if out != ["ok", 20]: bad.append("the fetch did not reach the final response: %s" % out)
+                pins = rows(path)
+                wantpins = sorted([("a.example", 1965, cs[0]["fp"]), (second[0], second[1], cs[0]["fp"])])
+                if pins != wantpins: bad.append("pins afterwards %s, expected %s" % (pins, wantpins))
+            if bad:
+                res.violations.append({"clause": "the certificate pin is verified (and a first use recorded) on every hop of a redirect chain",
+                                       "signature": "C16:hop-pin", "case": {"scenario": label, "second_hop": list(second),
+                                                                            "both hops present": "the same certificate"},
+                                       "trace": {"problems": bad}})
+    finally:
+        shutil.rmtree(tmp, ignore_errors=True)
+
 def run(tier, seed):
     setup_impl()
     rng = random.Random(seed)
@@ -130,4 +211,6 @@ def run(tier, seed):
             res.violations.append({"clause": "C16.ok", "signature": "C16:" + (o[0] if o[0] == "final" else o[1]) + ":conn%d" % len(log),
                                    "case": {"follow": c[0], "max_redirects": c[1], "url": c[2], "table": c[3]},
                                    "trace": {"outcome": o, "connections": log}})
+    redirect_pin_cases(res)
+    res.rule += " | plus, with the trust store on: a redirect to another port of the same host / to another host presenting the same certificate, with that hop pinned differently or not at all"
     return res
